@@ -44,9 +44,7 @@ func (db *Database) Search(query string, limit int) []SearchResult {
 // SearchWithOptions performs search with advanced options including context awareness and platform filtering
 // Deprecated: Use SearchUniversal for better BM25F-based ranking and NLP integration
 func (db *Database) SearchWithOptions(query string, options SearchOptions) []SearchResult {
-	if options.Limit <= 0 {
-		options.Limit = constants.DefaultSearchLimit
-	}
+	options.Limit = db.effectiveLimit(options.Limit, constants.DefaultSearchLimit)
 
 	queryWords := strings.Fields(strings.ToLower(query))
 	results := make([]SearchResult, 0, utils.Min(len(db.Commands), options.Limit*constants.ResultsBufferMultiplier))
@@ -68,9 +66,7 @@ func (db *Database) SearchWithOptions(query string, options SearchOptions) []Sea
 // SearchWithPipelineOptions performs search with pipeline-specific enhancements
 // Deprecated: Use SearchUniversal with PipelineOnly=true and PipelineBoost options
 func (db *Database) SearchWithPipelineOptions(query string, options SearchOptions) []SearchResult {
-	if options.Limit <= 0 {
-		options.Limit = constants.DefaultSearchLimit
-	}
+	options.Limit = db.effectiveLimit(options.Limit, constants.DefaultSearchLimit)
 
 	queryWords := strings.Fields(strings.ToLower(query))
 	results := make([]SearchResult, 0, utils.Min(len(db.Commands), options.Limit*constants.ResultsBufferMultiplier))
@@ -496,9 +492,7 @@ func isDownloadTool(cmdLower string) bool {
 // SearchWithFuzzy performs hybrid search combining exact matching and fuzzy search
 // Deprecated: Use SearchUniversal with UseFuzzy=true option
 func (db *Database) SearchWithFuzzy(query string, options SearchOptions) []SearchResult {
-	if options.Limit <= 0 {
-		options.Limit = constants.DefaultSearchLimit
-	}
+	options.Limit = db.effectiveLimit(options.Limit, constants.DefaultSearchLimit)
 
 	// First try exact search
 	exactOptions := options
@@ -529,6 +523,15 @@ func (db *Database) limitResults(results []SearchResult, limit int) []SearchResu
 	return results
 }
 
+// fuzzySafe replaces NUL characters by blanks: the fuzzy matcher treats NUL as
+// "end of string" and indexes out of range when one occurs inside a text.
+func fuzzySafe(s string) string {
+	if strings.IndexByte(s, 0) < 0 {
+		return s
+	}
+	return strings.ReplaceAll(s, "\x00", " ")
+}
+
 // performFuzzySearch conducts fuzzy search on the database
 func (db *Database) performFuzzySearch(query string, options SearchOptions) []SearchResult {
 	// Create search targets combining command and description. Only commands that pass
@@ -550,12 +553,12 @@ func (db *Database) performFuzzySearch(query string, options SearchOptions) []Se
 		builder.WriteString(cmd.Command)
 		builder.WriteByte(' ')
 		builder.WriteString(cmd.Description)
-		targets = append(targets, builder.String())
+		targets = append(targets, fuzzySafe(builder.String()))
 		targetDoc = append(targetDoc, i)
 	}
 
 	// Perform fuzzy search
-	matches := fuzzy.Find(query, targets)
+	matches := fuzzy.Find(fuzzySafe(query), targets)
 
 	var results []SearchResult
 	for _, match := range matches {
@@ -638,7 +641,7 @@ func (db *Database) GetSuggestions(query string, maxSuggestions int) []string {
 		// Split command into words
 		cmdWords := strings.Fields(cmd.Command)
 		for _, word := range cmdWords {
-			cleanWord := strings.ToLower(strings.Trim(word, "-_.[]{}()"))
+			cleanWord := fuzzySafe(strings.ToLower(strings.Trim(word, "-_.[]{}()")))
 			if len(cleanWord) > 2 { // Ignore very short words
 				wordSet[cleanWord] = true
 			}
@@ -647,7 +650,7 @@ func (db *Database) GetSuggestions(query string, maxSuggestions int) []string {
 		// Split description into words
 		descWords := strings.Fields(cmd.Description)
 		for _, word := range descWords {
-			cleanWord := strings.ToLower(strings.Trim(word, ".,!?;:()[]{}\"'"))
+			cleanWord := fuzzySafe(strings.ToLower(strings.Trim(word, ".,!?;:()[]{}\"'")))
 			if len(cleanWord) > 2 && !isCommonWord(cleanWord) {
 				wordSet[cleanWord] = true
 			}
@@ -662,7 +665,7 @@ func (db *Database) GetSuggestions(query string, maxSuggestions int) []string {
 	sort.Strings(words) // fixed candidate order: suggestions must be reproducible
 
 	// Find fuzzy matches for the query
-	matches := fuzzy.Find(query, words)
+	matches := fuzzy.Find(fuzzySafe(query), words)
 
 	var suggestions []string
 	for i, match := range matches {
@@ -701,6 +704,7 @@ func (db *Database) SearchWithNLP(query string, options SearchOptions) []SearchR
 		// Fall back to regular search if NLP is disabled
 		return db.SearchWithFuzzy(query, options)
 	}
+	options.Limit = db.effectiveLimit(options.Limit, constants.DefaultSearchLimit)
 
 	// Use shared TF-IDF searcher if available
 	if db.tfidf != nil && db.cmdIndex != nil {
